@@ -15,8 +15,8 @@ CLAIMS = {
          "and that gen_all enumerates each of the 4^n strings once in index order; correspondence on random histories with all views dumped after each step.",
          "Lean invariant proof by induction over edit histories + differential correspondence of histories"),
  "C17": ("proof", "6.C17", "Lean proof of print/parse round trip, sparse and mixed notation expansion, exact grammar characterisation of accepted texts "
-         "(every ill-formed text is rejected with ValueError, only ValueError), termination certificate, size padding; k-local expansion decided by "
-         "correspondence + direct oracle. Parser model tied by 30k grammar-directed and mutated texts per run.",
+         "(every ill-formed text is rejected with ValueError, only ValueError), termination certificate, size padding; k-local expansion PROVED for all generator lists and all n (C17_klocal: result = first occurrences of "
+         "the translates of the right-padded generators, in order; length n, no duplicates, exact membership; ValueError below the longest length / on the empty list). Parser model tied by 30k grammar-directed and mutated texts per run.",
          "Lean proof of parser grammar equivalence + grammar-directed differential correspondence"),
  "C14": ("proof", "6.C14", "Lean characterisation theorems (commutant, anticommutation graph edges/labels, components partition and connectivity, commutator "
          "graph, pair counts) for the model of get_graph / collection graph queries; correspondence on random collections n<=6 and 4^n-vertex "
@@ -46,7 +46,9 @@ CLAIMS = {
          "'cache empty or = classify(current list)' is kept by every one of the 9 public edits with every argument (error exits included) and by every query; "
          "hence along EVERY finite history of edits and queries each answer equals the answer of a freshly built collection (C10_history), read-only queries "
          "change nothing, no edit loses a string other than the named one (C10_lossless, per edit), a copy is a fresh collection. `sort` keeps the cache: sound iff "
-         "the classifier is order-independent — explicit hypothesis, shown necessary in Lean. Model tied to the code by exact comparison of the state after "
+         "the classifier is order-independent — explicit hypothesis, shown necessary in Lean. For the MODELLED classifier both hypotheses of the generic theorem are discharged "
+         "(C10_model_total): order-independence through C03.getSubgraphs_perm, and 'classify() never raises' (editList_uniform, getSubgraphs_total, build_total, "
+         "build_strict_adequate) — C10 holds for the model along ALL histories with no side condition. Model tied to the code by exact comparison of the state after "
          "each edit and of 20 kinds of query answers on random histories; independently the implementation is compared with a freshly built collection.",
          "Lean refinement/invariant proof over edit-query histories + differential correspondence of histories"),
  "C15": ("proof", "6.C15", "Lean proof, all n: the BFS of average_otoc enumerates exactly the orbit of V under commutation with members of G (never out of fuel), "
